@@ -23,6 +23,7 @@ type constTable struct {
 	vals    []ssa.Value
 	stores  map[string]ssa.Value // field stores of the composite literals the values were built from
 	valType types.Type
+	isArray bool
 }
 
 func (t *constTable) lookup(k constant.Value) (ssa.Value, bool) {
@@ -92,7 +93,8 @@ func buildConstTables(pkg *ssa.Package) map[*ssa.Global]*constTable {
 	for _, m := range pkg.Members {
 		if g, ok := m.(*ssa.Global); ok {
 			if pt, ok := g.Type().(*types.Pointer); ok {
-				if _, isMap := pt.Elem().Underlying().(*types.Map); isMap {
+				switch pt.Elem().Underlying().(type) {
+				case *types.Map, *types.Array:
 					cands[g] = true
 				}
 			}
@@ -157,6 +159,27 @@ func buildConstTables(pkg *ssa.Package) map[*ssa.Global]*constTable {
 							} else {
 								delete(cands, g)
 							}
+						case *ssa.IndexAddr:
+							// an element of an array table: stored to by the initialiser only, loaded elsewhere
+							if x.X != ssa.Value(g) {
+								delete(cands, g)
+								continue
+							}
+							for _, ref := range *x.Referrers() {
+								switch r := ref.(type) {
+								case *ssa.UnOp:
+									if r.Op != token.MUL {
+										delete(cands, g)
+									}
+								case *ssa.Store:
+									if f != initFn || r.Addr != ssa.Value(x) {
+										delete(cands, g)
+									}
+								case *ssa.DebugRef:
+								default:
+									delete(cands, g)
+								}
+							}
 						case *ssa.DebugRef:
 						default:
 							delete(cands, g)
@@ -183,6 +206,32 @@ func buildConstTables(pkg *ssa.Package) map[*ssa.Global]*constTable {
 		return out
 	}
 	for g := range cands {
+		if at, isArr := g.Type().(*types.Pointer).Elem().Underlying().(*types.Array); isArr {
+			// element stores of the initialiser; every other index holds the zero value
+			t := &constTable{global: g, stores: best.stores, valType: at.Elem(), isArray: true}
+			ok := nInitStores[g] == 0
+			for _, ev := range best.events {
+				st, isSt := ev.(*ssa.Store)
+				if !isSt {
+					continue
+				}
+				ia, isIA := st.Addr.(*ssa.IndexAddr)
+				if !isIA || ia.X != ssa.Value(g) {
+					continue
+				}
+				k, isC := best.constOf(ia.Index)
+				if !isC {
+					ok = false
+					break
+				}
+				t.keys = append(t.keys, k)
+				t.vals = append(t.vals, best.resolve(st.Val))
+			}
+			if ok {
+				out[g] = t
+			}
+			continue
+		}
 		if nInitStores[g] != 1 {
 			continue
 		}
@@ -261,4 +310,33 @@ func zeroConst(t types.Type) ssa.Value {
 		}
 	}
 	return ssa.NewConst(nil, t)
+}
+
+// tableElem resolves the load of an element of a constant array table with a known index.
+func (p *pwPath) tableElem(ld *ssa.UnOp) (ssa.Value, bool) {
+	ia, ok := ld.X.(*ssa.IndexAddr)
+	if !ok {
+		return nil, false
+	}
+	g, ok := ia.X.(*ssa.Global)
+	if !ok {
+		return nil, false
+	}
+	t := constTablesOf(g.Pkg)[g]
+	if t == nil || !t.isArray {
+		return nil, false
+	}
+	k, ok := p.constOf(ia.Index)
+	if !ok {
+		return nil, false
+	}
+	for a, v := range t.stores {
+		if _, have := p.stores[a]; !have {
+			p.stores[a] = v
+		}
+	}
+	if v, found := t.lookup(k); found {
+		return v, true
+	}
+	return zeroConst(t.valType), true
 }
